@@ -6,8 +6,13 @@ DBML text is the business of pv.surface (style), and what pydbml really stored
 is read by pv.walk.  `expected(doc)` gives the content tree in the same shape
 as `walk.content(db)`.
 """
+import re
 from dataclasses import dataclass, field
 from typing import List, Optional, Tuple, Any
+
+
+def BARE_OK(s):
+    return re.fullmatch(r'[A-Za-z0-9_]+', s) is not None
 
 
 @dataclass
